@@ -807,6 +807,7 @@ func parseBinOps(expr string, n *promParser.BinaryExpr) (src []Source) {
 		for _, s = range walkNode(expr, n.RHS) {
 			operand := s
 			s = includeLabel(s, n.VectorMatching.Include...)
+			s = unguaranteeCopiedLabels(s, lhs, n.VectorMatching.Include)
 			// If we have:
 			// foo * on(instance) group_left(a,b) bar{x="y"}
 			// then only group_left() labels will be included.
@@ -837,6 +838,7 @@ func parseBinOps(expr string, n *promParser.BinaryExpr) (src []Source) {
 		for _, s = range walkNode(expr, n.LHS) {
 			operand := s
 			s = includeLabel(s, n.VectorMatching.Include...)
+			s = unguaranteeCopiedLabels(s, rhs, n.VectorMatching.Include)
 			if n.VectorMatching.On {
 				s = includeLabel(s, n.VectorMatching.MatchingLabels...)
 			}
@@ -922,6 +924,27 @@ func parseBinOps(expr string, n *promParser.BinaryExpr) (src []Source) {
 		}
 	}
 	return src
+}
+
+// Labels listed in group_left(...) / group_right(...) are copied from the "one" side: the value the "many" side
+// had is replaced, and the label is removed when the "one" side doesn't have it. Such a label is only guaranteed
+// on the results if every source of the "one" side guarantees it.
+func unguaranteeCopiedLabels(s Source, oneSide []Source, names []string) Source {
+	for _, name := range names {
+		if !allGuarantee(oneSide, name) {
+			s.GuaranteedLabels = removeFromSlice(s.GuaranteedLabels, name)
+		}
+	}
+	return s
+}
+
+func allGuarantee(srcs []Source, name string) bool {
+	for _, s := range srcs {
+		if !slices.Contains(s.GuaranteedLabels, name) {
+			return false
+		}
+	}
+	return true
 }
 
 func checkConditions(s Source, op promParser.ItemType, isBool bool) (isConditional, isReturnBool bool) {
